@@ -174,9 +174,10 @@ fn check_pair(ctx: &mut Ctx, st: &mut State, a: &Model, b: &Model, with_referenc
     if b.keys().any(|k| !a.contains_key(k)) {
         ctx.count("pairs_with_additions", 1);
     }
-    #[cfg(feature = "ffi")]
     // The reference writes its delta into a fixed 16384-int buffer without a bound check.
+    #[cfg(feature = "ffi")]
     let ref_delta_ints = 3 + a.keys().filter(|k| !b.contains_key(k)).count() + b.values().map(|d| 3 + d.len()).sum::<usize>();
+    #[cfg(feature = "ffi")]
     if with_reference && ref_delta_ints <= 16000 && reference::Ref::applicable(a) && reference::Ref::applicable(b) {
         let State { reference: rf, delta2, out, .. } = st;
         let r = catch(|| -> Result<(), (String, String)> {
@@ -327,13 +328,13 @@ fn main() {
     ctx.arm("random", 1800.0);
     let n = ctx.volume(1_500, 80_000, 3, 100);
     ctx.run_cases("random", n, |ctx, _i, rng| {
-        let nkeys = match rng.below(6) {
+        let nkeys = if cfg!(miri) { rng.range(1, 12) as usize } else { match rng.below(6) {
             0 => rng.range(1, 4) as usize,
             1 => rng.range(1, 20) as usize,
             2 => rng.range(20, 200) as usize,
             3 => 1024,
             _ => rng.range(1, 1024) as usize,
-        };
+        } };
         let maxw = *rng.pick(&[1usize, 3, 8, 40, 400]);
         let with_ref = rng.chance(1, 2);
         let u = Universe::random(rng, nkeys, maxw, if with_ref { 0x7fff } else { 0xffff });
